@@ -78,7 +78,7 @@ class C12(Check):
         return fixlib.fix_case(tier=tier, kinds=[7, 7, 8, 8, 3, 2, 6, 1, 0] if tier == "quick" else None, structure=True)
 
     def examples(self, tier):
-        return 70 if tier == "quick" else 1500
+        return 45 if tier == "quick" else 1500
 
     def budget_s(self, tier):
         return 400.0 if tier == "quick" else 1700.0
